@@ -736,6 +736,13 @@ structure SpecSt where
   strict : Bool := false
   /-- the specification has no opinion on this line -/
   unknown : Bool := false
+  /-- bookkeeping for the per-run NOTE lines (`ctl note …`), not part of any verdict: this alternative is
+      the H3_CLOSED_CRITICAL_STREAM that `overtaken` added (R-04d) / `Ev.qpackClosed` was judged on the
+      way to it (R-04e) -/
+  overtook : Bool := false
+  qjudged : Bool := false
+  /-- the control stream's events contain frame type 0x41 (before the second audit: the whole line `?`) -/
+  wtSeen : Bool := false
 deriving Repr
 
 def SpecSt.peerBytes (s : SpecSt) (sid : Nat) (b : Bytes) : SpecSt :=
@@ -766,7 +773,9 @@ open H3.Spec.ControlRules in
     notice it before anything else that is available at the same time (the closing itself is judged,
     once, by `qpackPhase` at the end of the poll) -/
 def qpackDead (s : SpecSt) : List SpecSt :=
-  if s.dead.isNone && s.streams.any closedQpack then (judge s .qpackClosed).filter (·.dead.isSome) else []
+  if s.dead.isNone && s.streams.any closedQpack then
+    (judge { s with qjudged := true } .qpackClosed).filter (·.dead.isSome)
+  else []
 
 open H3.Spec.ControlRules in
 /-- the unidirectional streams whose header can be judged now, in the order they were opened -/
@@ -826,7 +835,8 @@ def qpackPhase : Nat → SpecSt → List SpecSt
     match s.streams.find? closedQpack with
     | none => [s]
     | some u =>
-      let s1 := { s with streams := s.streams.map fun v => if v.sid == u.sid then { v with qClosed := true } else v }
+      let s1 := { s with qjudged := true,
+                         streams := s.streams.map fun v => if v.sid == u.sid then { v with qClosed := true } else v }
       (judge s1 .qpackClosed).flatMap (qpackPhase fuel)
 
 open H3.Spec.ControlRules in
@@ -838,7 +848,7 @@ open H3.Spec.ControlRules in
     of the reset instead of the frame.  Nothing else is added, and nothing without a reset. -/
 def overtaken (isReset : Bool) (x : SpecSt) (r : List SpecSt) : List SpecSt :=
   if isReset && r.all (·.dead.isSome) && !(r.any (·.dead == some H3_CLOSED_CRITICAL_STREAM)) then
-    r ++ [{ x with dead := some H3_CLOSED_CRITICAL_STREAM }]
+    r ++ [{ x with dead := some H3_CLOSED_CRITICAL_STREAM, overtook := true }]
   else r
 
 open H3.Spec.ControlRules in
@@ -870,7 +880,8 @@ def ctlPhase (s : SpecSt) : List SpecSt :=
     let evs := toks.filterMap tokEv
     let isReset := match u.ended with | some (.reset _) => true | _ => false
     let new := evs.drop u.emitted ++ (if isReset then [CtlEv.reset] else [])
-    let s1 := { s with streams := s.streams.map fun v => if v.sid == u.sid then { v with emitted := evs.length } else v }
+    let s1 := { s with wtSeen := s.wtSeen || evs.contains .wtSignal,
+                       streams := s.streams.map fun v => if v.sid == u.sid then { v with emitted := evs.length } else v }
     new.foldl (ctlStep isReset) [s1]
 
 /-! The endpoint's own streams, specification side (RFC 9114 §6.2.1: "Each side MUST initiate a
@@ -1017,7 +1028,7 @@ def renderSpec (alts : List (SpecSt × Task)) : String :=
     s!"closed=[{closed}] res={renderList t.results ","} U={renderList t.us "/"} **"
   " || ".intercalate lines.eraseDups
 
-def handleWith (strict : Bool) (role cfg : String) (ops : List String) : String :=
+def handleWith (strict note : Bool) (role cfg : String) (ops : List String) : String :=
     if role != "server" && role != "client" then "bad-op" else
     let server := role == "server"
     match parseCfg server cfg with
@@ -1032,11 +1043,18 @@ def handleWith (strict : Bool) (role cfg : String) (ops : List String) : String 
       if m == "unsupported" then "unsupported ## ?" else
       let sp0 : SpecSt := { rc := rc, env := OwnNet.init rc, strict := strict }
       let alts := runSpec ((specSetup sp0).map fun x => (x, {})) ops
+      if note then
+        -- `ctl note …`: which of the oracle's recorded leniencies this line meets (for the NOTE lines
+        -- of the check; R-04d, R-04e, frame type 0x41)
+        let b (x : Bool) : String := if x then "1" else "0"
+        s!"overtaken={b (alts.any (·.1.overtook))} qpack={b (alts.any (·.1.qjudged))} wt={b (alts.any (·.1.unknown))} wtseen={b (alts.any (·.1.wtSeen))}"
+      else
       m ++ " ## " ++ renderSpec alts
 
 def handle : List String → String
-  | "ctl" :: role :: cfg :: ops => handleWith false role cfg ops
-  | "ctlrfc" :: role :: cfg :: ops => handleWith true role cfg ops
+  | "ctl" :: "note" :: role :: cfg :: ops => handleWith false true role cfg ops
+  | "ctl" :: role :: cfg :: ops => handleWith false false role cfg ops
+  | "ctlrfc" :: role :: cfg :: ops => handleWith true false role cfg ops
   | _ => "bad-op"
 
 end H3.Drv.C04
